@@ -41,6 +41,9 @@ type Case struct {
 	// TruthAll also evaluates every rule from scratch at each BeginCycle (needed to know whether
 	// a retracted rule would have been satisfied later).
 	TruthAll bool
+
+	// OnEvent, when set, is called synchronously after each non-probe event (index counts those).
+	OnEvent func(index int, ev *obs.Event)
 }
 
 // Violation is a broken clause.
@@ -159,18 +162,25 @@ type cycleRec struct {
 	probes []facts.ProbeCall
 }
 
-// Run executes the case and validates the trace.
-func Run(c *Case, p *Prepared) *Report {
+// Run executes the case on a new instance and validates the trace.
+func Run(c *Case, p *Prepared) *Report { return RunOn(c, p, nil) }
+
+// RunOn executes the case on the given instance (nil = a new one) and validates the trace
+// against a fresh model (nothing retracted, nothing remembered, not complete).
+func RunOn(c *Case, p *Prepared, kb *ast.KnowledgeBase) *Report {
 	rep := &Report{Retracted: map[string]bool{}}
 	lib := p.Lib
 	if c.ViaGRB && p.GRBLib != nil {
 		lib = p.GRBLib
 	}
-	kb, err := obs.Instance(lib)
-	if err != nil {
-		rep.add("C09", "NewKnowledgeBaseInstance failed for a successfully built knowledge base: %v", err)
-		rep.Harness = "instance: " + err.Error()
-		return rep
+	if kb == nil {
+		var err error
+		kb, err = obs.Instance(lib)
+		if err != nil {
+			rep.add("C09", "NewKnowledgeBaseInstance failed for a successfully built knowledge base: %v", err)
+			rep.Harness = "instance: " + err.Error()
+			return rep
+		}
 	}
 	live := c.Init.Copy()
 	probe := &facts.Probe{FailAt: c.ProbeFailAt, Mode: c.ProbeMode}
@@ -196,7 +206,14 @@ func Run(c *Case, p *Prepared) *Report {
 	}
 	main := recs[0]
 	probe.OnCall = func(name string, id int64, n int) { main.Probe(name, id, n) }
+	nonProbe := 0
 	main.Hook = func(ev *obs.Event) {
+		if ev.Kind != obs.EvProbe && c.OnEvent != nil {
+			defer func() {
+				nonProbe++
+				c.OnEvent(nonProbe, ev)
+			}()
+		}
 		switch ev.Kind {
 		case obs.EvBegin:
 			ev.State = obs.Capture(live, dc)
@@ -219,6 +236,12 @@ func Run(c *Case, p *Prepared) *Report {
 	opts := obs.RunOpts{MaxCycle: c.MaxCycle, ErrOnFail: c.ErrOnFail, Listeners: listeners}
 	if c.UseContext {
 		opts.Ctx = context.Background()
+	}
+	if c.ProbeMode == facts.FailCancel && c.ProbeFailAt > 0 {
+		ctx, cancel := context.WithCancel(context.Background())
+		defer cancel()
+		opts.Ctx = ctx
+		probe.Cancel = cancel
 	}
 	res := obs.Execute(kb, dc, opts)
 	rep.Err, rep.Panicked = res.Err, res.Panicked
